@@ -211,7 +211,7 @@ func verifH_C19_nested() {
 	verifReach("end")
 }
 
-//verif:harness id=C19 tier=quick,thorough witness=end,rejected bounds="oneOf with discriminator over two object schemas (mapping absent / present); value object whose discriminator value is a marker, plus a marker property; same modes and observation points"
+//verif:harness id=C19 tier=quick,thorough witness=end,rejected bounds="oneOf with discriminator over two object schemas (mapping absent / present); value object whose discriminator value is a marker or one of the mapped values x / y (one candidate tried), plus a marker property; same modes and observation points"
 func verifH_C19_discriminator() {
 	verifMarkerReset()
 	X := &Schema{Type: &Types{"object"}, Properties: Schemas{"n": &SchemaRef{Value: &Schema{Type: &Types{"number"}}}}}
@@ -222,6 +222,13 @@ func verifH_C19_discriminator() {
 		s.Discriminator.Mapping = map[string]string{"x": "#/components/schemas/X", "y": "#/components/schemas/Y"}
 	}
 	o := map[string]any{"kind": verifMarker("kind")}
+	// a mapped discriminator value narrows the oneOf to the one candidate it names
+	switch verifChoose("kind", 3) {
+	case 1:
+		o["kind"] = "x"
+	case 2:
+		o["kind"] = "y"
+	}
 	if verifChoose("hasN", 2) == 1 {
 		o["n"] = verifMarker("n")
 	}
@@ -319,7 +326,7 @@ func verifH_C19_discriminator_long() { verifLongMarkers(verifH_C19_discriminator
 //verif:harness id=C19 tier=thorough witness=end,rejected bounds="as foreign_go_values with markers of 2-5 bytes"
 func verifH_C19_foreign_go_values_long() { verifLongMarkers(verifH_C19_foreign_go_values) }
 
-//verif:harness id=C19 tier=quick,thorough witness=end,rejected bounds="rejected strings of particular classes, which a message might be tempted to treat specially (concrete texts): a numeric string, a number with exponent, a boolean word, null, an enum member in another letter case or padded with blanks, a date, an e-mail address, a URL, JSON text, a long string; each against type integer / number / boolean / array / object, enum [alpha, beta], pattern, format date, maxLength 2, minLength 40, top-level and inside an object property and an array item, all modes: no Reason and no reason-only message contains the rejected string"
+//verif:harness id=C19 tier=quick,thorough witness=end,rejected bounds="rejected strings of particular classes, which a message might be tempted to treat specially (concrete texts): a numeric string, a number with exponent, a boolean word, null, an enum member in another letter case or padded with blanks, a date, an e-mail address, a URL, JSON text, a long string; each against type integer / number / boolean / array / object, enum [alpha, beta], pattern, format date, maxLength 2, minLength 40, oneOf / anyOf / allOf with a single member, oneOf over a not, top-level and inside an object property and an array item, all modes: no Reason and no reason-only message contains the rejected string"
 func verifH_C19_value_classes() {
 	verifMarkerReset()
 	values := []string{"31415926", "2.5e3", "true", "null", "Alpha", " alpha ", "ALPHA", "2024-02-30", "someone@example.test", "https://h.example/secret?token=1", `{"k":"v"}`, "0123456789012345678901234567890123456789x"}
@@ -331,6 +338,8 @@ func verifH_C19_value_classes() {
 		{Type: &Types{"string"}, Enum: []any{"alpha", "beta"}}, {Type: &Types{"string"}, Pattern: "^[q-z]{3}$"}, {Type: &Types{"string"}, Format: "date"},
 		{Type: &Types{"string"}, MaxLength: &two}, {Type: &Types{"string"}, MinLength: forty},
 		{Type: &Types{"integer", "boolean"}}, {OneOf: SchemaRefs{{Value: &Schema{Type: &Types{"integer"}}}, {Value: &Schema{Type: &Types{"boolean"}}}}},
+		{OneOf: SchemaRefs{{Value: &Schema{Type: &Types{"integer"}}}}}, {AnyOf: SchemaRefs{{Value: &Schema{Type: &Types{"integer"}}}}}, {AllOf: SchemaRefs{{Value: &Schema{Type: &Types{"integer"}}}}},
+		{OneOf: SchemaRefs{{Value: &Schema{Not: &SchemaRef{Value: &Schema{}}}}}},
 	}
 	s := schemas[verifChoose("schema", len(schemas))]
 	if s.VisitJSON(v) == nil {
